@@ -931,6 +931,115 @@ Proof.
 Qed.
 
 (* ------------------------------------------------------------------------------------------ *)
+(* class sizes: cumulative counts of the labels on tie-free data *)
+
+Lemma percentile_mono s q q' : StronglySorted Z.lt s -> s <> [] -> (0 <= q)%Q -> (q <= q')%Q -> (q' <= 1)%Q ->
+  (percentile s q <= percentile s q')%Q.
+Proof.
+  intros Hs Hne H0 Hqq H1.
+  assert (Hq1 : (q <= 1)%Q) by lra. assert (Hq0' : (0 <= q')%Q) by lra.
+  destruct (percentile_bracket s q Hs Hne H0 Hq1) as [Hj [Hlo Hhi]].
+  destruct (percentile_bracket s q' Hs Hne Hq0' H1) as [Hj' [Hlo' Hhi']].
+  set (j := Qfloor (inject_Z (lenZ s - 1) * q)) in *. set (j' := Qfloor (inject_Z (lenZ s - 1) * q')) in *.
+  assert (HM : (0 <= inject_Z (lenZ s - 1))%Q) by (rewrite <- (Zle_Qle 0); lia).
+  assert (Hjj : j <= j') by (apply Qfloor_resp_le; nra).
+  destruct (Z.eq_dec j j') as [E|NE].
+  - unfold percentile. fold j. fold j'. rewrite <- E.
+    set (a := nthZ s j). set (b := nthZ s (Z.min (j + 1) (lenZ s - 1))).
+    assert (Hab : a <= b).
+    { unfold a, b. destruct (Z.le_gt_cases (j + 1) (lenZ s - 1)).
+      - rewrite Z.min_l by lia. unfold nthZ. apply Z.lt_le_incl. apply sorted_nth_lt; [exact Hs|lia|unfold lenZ in *; lia].
+      - rewrite Z.min_r by lia. replace (lenZ s - 1) with j by lia. lia. }
+    rewrite Zle_Qle in Hab. rewrite (inject_Z_sub b a).
+    assert (Hv : (inject_Z (lenZ s - 1) * q <= inject_Z (lenZ s - 1) * q')%Q) by nra.
+    set (vi := (inject_Z (lenZ s - 1) * q)%Q) in *. set (vi' := (inject_Z (lenZ s - 1) * q')%Q) in *. nra.
+  - assert (H2 : j + 1 <= lenZ s - 1) by lia. specialize (Hhi H2).
+    assert (H3 : (inject_Z (nthZ s (j + 1)) <= inject_Z (nthZ s j'))%Q).
+    { rewrite <- Zle_Qle. destruct (Z.eq_dec (j + 1) j') as [->|N2]; [lia|].
+      unfold nthZ. apply Z.lt_le_incl. apply sorted_nth_lt; [exact Hs|lia|unfold lenZ in *; lia]. }
+    lra.
+Qed.
+
+Lemma label_cons c cuts x : label (c :: cuts) x = (if qlt_bool c (inject_Z x) then 1 else 0) + label cuts x.
+Proof. unfold label, lenZ. cbn [filter]. destruct (qlt_bool c (inject_Z x)); cbn [length]; lia. Qed.
+
+Lemma label_zero cuts x : (forall c, In c cuts -> ~ (c < inject_Z x)%Q) -> label cuts x = 0.
+Proof.
+  induction cuts as [|c r IH]; intros H; [reflexivity|]. rewrite label_cons.
+  destruct (qlt_bool c (inject_Z x)) eqn:E; [apply qlt_bool_iff in E; exfalso; apply (H c); [now left|exact E]|].
+  rewrite IH; [lia|]. intros c' Hc'. apply H. now right.
+Qed.
+
+(* for non-decreasing cut points: more than m cut points lie below x iff the m-th one does *)
+Lemma label_gt_iff cuts x : StronglySorted Qle cuts -> forall m, (m < length cuts)%nat ->
+  (Z.of_nat m < label cuts x <-> (nth m cuts 0%Q < inject_Z x)%Q).
+Proof.
+  induction 1 as [|c r Hr IH Hall]; intros m Hm; cbn [length] in Hm; [lia|]. rewrite label_cons.
+  rewrite Forall_forall in Hall.
+  destruct (qlt_bool c (inject_Z x)) eqn:E.
+  - apply qlt_bool_iff in E. destruct m as [|m]; cbn [nth].
+    + pose proof (label_range r x). split; [intros _; exact E|intros _; lia].
+    + rewrite <- (IH m) by lia. lia.
+  - assert (Hn : ~ (c < inject_Z x)%Q) by (intros Hc; apply qlt_bool_iff in Hc; congruence).
+    assert (Hz : label r x = 0).
+    { apply label_zero. intros c' Hc' Hlt. apply Hn. eapply Qle_lt_trans; [apply Hall; exact Hc'|exact Hlt]. }
+    rewrite Hz. split; [lia|]. intros Hlt. exfalso. destruct m as [|m]; cbn [nth] in Hlt; [contradiction|].
+    apply Hn. eapply Qle_lt_trans; [|exact Hlt]. apply Hall. apply nth_In. lia.
+Qed.
+
+Lemma sorted_map {A B} (R : A -> A -> Prop) (R' : B -> B -> Prop) (f : A -> B) l :
+  (forall a b, In a l -> In b l -> R a b -> R' (f a) (f b)) -> StronglySorted R l -> StronglySorted R' (map f l).
+Proof.
+  intros Hf H. induction H as [|a r Hr IH Hall]; [constructor|]. cbn [map]. constructor.
+  - apply IH. intros x y Hx Hy. apply Hf; now right.
+  - rewrite Forall_forall in *. intros y Hy. apply in_map_iff in Hy. destruct Hy as [x [<- Hx]].
+    apply Hf; [now left|now right|apply Hall; exact Hx].
+Qed.
+
+Lemma filter_map_length {A B} (f : A -> B) (P : B -> bool) l : length (filter P (map f l)) = length (filter (fun a => P (f a)) l).
+Proof. induction l as [|a r IH]; [reflexivity|]. cbn [map filter]. destruct (P (f a)); cbn [length]; lia. Qed.
+Lemma filter_ext_length {A} (P P' : A -> bool) l : (forall a, In a l -> P a = P' a) -> length (filter P l) = length (filter P' l).
+Proof.
+  induction l as [|a r IH]; intros H; [reflexivity|]. cbn [filter]. rewrite (H a) by now left.
+  assert (E : length (filter P r) = length (filter P' r)) by (apply IH; intros b Hb; apply H; now right).
+  destruct (P' a); cbn [length]; lia.
+Qed.
+
+(* C20_labels_class_sizes (cumulative form): tie-free decision values, non-decreasing cut percents pcs in [0,100]:
+   the classes 0..m together hold exactly floor((N-1) pcs_m / 100) + 1 items *)
+Lemma labels_cumulative d pcs m : NoDup d -> d <> [] ->
+  Forall (fun pc => (0 <= pc)%Q /\ (pc <= 100)%Q) pcs -> StronglySorted Qle pcs -> (m < length pcs)%nat ->
+  lenZ (filter (fun yi => yi <=? Z.of_nat m) (labels_of d (cut_points d pcs)))
+  = Qfloor (inject_Z (lenZ d - 1) * (nth m pcs 0%Q / 100)) + 1.
+Proof.
+  intros Hnd Hne Hr Hsrt Hm.
+  assert (Hs : StronglySorted Z.lt (sort d)).
+  { apply sorted_le_lt; [|apply sort_sorted]. eapply Permutation_NoDup; [symmetry; apply sort_perm|exact Hnd]. }
+  assert (Hne' : sort d <> []).
+  { intros E. apply Hne. apply Permutation_nil. rewrite <- E. apply sort_perm. }
+  rewrite Forall_forall in Hr.
+  assert (Hq : forall pc, In pc pcs -> (0 <= pc / 100)%Q /\ (pc / 100 <= 1)%Q).
+  { intros pc Hpc. destruct (Hr pc Hpc). split; [apply Qle_shift_div_l; [reflexivity|lra]|apply Qle_shift_div_r; [reflexivity|lra]]. }
+  assert (Hcs : StronglySorted Qle (cut_points d pcs)).
+  { unfold cut_points. eapply sorted_map; [|exact Hsrt]. intros a b Ha Hb Hab. cbv beta.
+    destruct (Hq a Ha), (Hq b Hb). apply percentile_mono; try assumption.
+    apply Qmult_le_compat_r; [exact Hab|]. discriminate. }
+  rewrite labels_of_label. unfold lenZ at 1. rewrite filter_map_length.
+  rewrite (filter_ext_length _ (fun x => Qle_bool (inject_Z x) (percentile (sort d) (nth m pcs 0%Q / 100))) d).
+  - destruct (Hq (nth m pcs 0%Q) (nth_In _ _ Hm)). apply labels_prop; assumption.
+  - intros x _.
+    assert (Hm' : (m < length (cut_points d pcs))%nat) by (unfold cut_points; rewrite map_length; exact Hm).
+    pose proof (label_gt_iff (cut_points d pcs) x Hcs m Hm') as Hiff.
+    assert (En : nth m (cut_points d pcs) 0%Q = percentile (sort d) (nth m pcs 0%Q / 100)).
+    { unfold cut_points. apply (nth_map_dflt (fun pc => percentile (sort d) (pc / 100))). exact Hm. }
+    rewrite En in Hiff.
+    destruct (Z.leb_spec (label (cut_points d pcs) x) (Z.of_nat m)) as [Hle|Hgt].
+    + symmetry. apply Qle_bool_iff. apply Qnot_lt_le. intros Hlt. apply Hiff in Hlt. lia.
+    + symmetry. destruct (Qle_bool (inject_Z x) (percentile (sort d) (nth m pcs 0%Q / 100))) eqn:E; [|reflexivity].
+      apply Qle_bool_iff in E. apply Hiff in Hgt. exfalso. eapply Qlt_not_le; eassumption.
+Qed.
+
+(* ------------------------------------------------------------------------------------------ *)
 (* labels_mono in one statement: the label is the number of cut points strictly below the decision value *)
 Lemma labels_count d cuts :
   labels_of d cuts = map (label cuts) d /\
@@ -987,3 +1096,10 @@ Example ex_downsample :
     [ASample 3 [0; 1]; ASample 2 [1; 0]; ASample 2 [1; 0]; APerm [2; 1; 4; 0; 3; 5]]
   = Ok ([[0; 10; 5]; [7; 80; 10]; [9; 90; 9]; [1; 20; 3]; [4; 50; 6]; [3; 30; 3]], [1; 0; 2; 0; 1; 2]).
 Proof. vm_compute. reflexivity. Qed.
+Example ex_labels_cumulative :
+  let d := [50; 10; 90; 30; 70; 110; 20; 80; 60; 100; 40] in
+  let y := labels_of d (cut_points d [20 # 1; 50 # 1]) in
+  y = [1; 0; 2; 0; 2; 2; 0; 2; 1; 2; 1] /\
+  lenZ (filter (fun yi => yi <=? 0) y) = 3 /\ lenZ (filter (fun yi => yi <=? 1) y) = 6 /\
+  Qfloor (inject_Z 10 * ((20 # 1) / 100)) + 1 = 3 /\ Qfloor (inject_Z 10 * ((50 # 1) / 100)) + 1 = 6.
+Proof. vm_compute. repeat split; reflexivity. Qed.
